@@ -6,6 +6,10 @@ ids = [json.loads(l)['id'] for l in open(os.path.join(ROOT, 'properties.jsonl'))
 
 FAMILY = "bounded-exhaustive exploration of real-code executions against a reference model (model-checking family)"
 CHECKS = {
+ "C02": dict(cat="model_checking",
+   text="Stateless exploration of the production DuplexPipe::exchange driven as a single harness-polled future on four scripted endpoints under a paused clock: (I) every endpoint call is a choice point (deliver/hold/error, accept all/one byte/nothing, ready/hold) and all choice sequences with <=3 (quick) / <=6-7 (thorough) deviations are executed; (II) all interleavings of {deliver left item, deliver right item, advance clock by T/2+1ms} so that idle-timer expirations cancel and restart the copy loops at every point, with <=2 / <=5 sink deviations and error injection on top. Oracle: two byte queues (prefix, no loss/dup/reorder), credit == forwarded == metrics, EOF only after the last byte, clean end iff nothing failed, an injected failure ends the exchange in the same poll, no stall, no self-wake spin.",
+   note="Scripted endpoints model the real ones where the pipe depends on unspecified behaviour (end of stream is reported again on re-read; a repeated eof() is ignored). HTTP/3 endpoints are not driven. Real H1/H2/TCP endpoints are exercised by the door-based checks.",
+   tech="stateless model checking of the implementation: deviation-bounded DFS over environment choice sequences under a controlled scheduler/clock"),
  "C03": dict(cat="exploration",
    text="Complete enumeration of the classifier's input domain (thorough: all 2^32 IPv4, all 2^32 IPv4-mapped, all 2^32 leading IPv6 words x 6 interface ids) against an IANA-registry oracle, plus every class representative x spelling x flag x ordered resolver list (<=3) through the real TcpForwarder::connect with connect(2)/getaddrinfo interposed.",
    note="Trusted: the IANA-derived oracle; libc interposition sees every connect/getaddrinfo of the process.",
